@@ -442,6 +442,22 @@ pub fn run(ctx: &Ctx, st: &mut Stats) {
             }
         }
     }
+    cold_threads(st, "history: first call on a fresh thread (hostile and ordinary fractional-day offsets, integer operations)", {
+        let mut v = vec![];
+        for f in [f64::NAN, -f64::NAN, f64::INFINITY, f64::NEG_INFINITY, 0.0, -0.0, 1.0, 0.5, 1e300, 1e-300] {
+            for base in [0i64, 1, -1, TS_MAX, TS_MIN, 946_684_800_000_000] {
+                v.push(C::af(K::TsAddDays, base, f));
+                v.push(C::af(K::TsSubDays, base, f));
+            }
+        }
+        for &k in K::ALL {
+            if !matches!(k, K::TsAddDays | K::TsSubDays) {
+                v.push(C::ab(k, 0, 0));
+                v.push(C::ab(k, 1_000_000, 1_000_000));
+            }
+        }
+        v
+    }, check);
     // history: a fractional-day offset, then a call that fails (non-finite / far out of range offset), then the first again
     let nhf = ctx.tier.pick(200, 200_000, 2_000_000);
     ctx.par(st, "history: A, a failing offset (NaN, infinite, 1e300, out of range), A", false, 0, nhf, |st, i, rng| {
